@@ -62,9 +62,9 @@ def judgeItems (want : List String) (got : List String) (label : Nat → String)
   let rec go : List String → List String → Nat → Option String
     | [], [], _ => none
     | w :: ws, g :: gs, i =>
-      if g.endsWith ":BLOCKED" then some s!"call #{i} ({label i}) did not return within the watchdog; specification: {w}"
+      if g.endsWith ":BLOCKED" then some s!"call #{i}{label i} did not return within the watchdog; specification: {w}"
       else if w == g then go ws gs (i + 1)
-      else some s!"call #{i} ({label i}): specification {w}, implementation {g}"
+      else some s!"call #{i}{label i}: specification {w}, implementation {g}"
     | _, _, i => some s!"output has the wrong number of items at #{i}"
   go want got 0
 
@@ -86,10 +86,13 @@ def seqJudge (q : Query) (ops : List Op) (impl : String) : String :=
     if tail == want then "ok"
     else s!"FAIL after the sequence: specification {want} (search steps = answers delivered, +1 if the end was reported; goroutine gone iff closed or ended), implementation {tail}"
 
+/-- the harness stops running cases once several calls have blocked (each costs a watchdog period) -/
+def skipped (impl : String) : Bool := impl.startsWith "SKIPPED"
+
 def seqHandler : Handler := fun payload impl =>
   let (qs, os) := splitBar payload
   match parseQuery qs, parseOps os with
-  | some q, some ops => (seqModel q ops, seqJudge q ops impl)
+  | some q, some ops => (seqModel q ops, if skipped impl then "-" else seqJudge q ops impl)
   | _, _ => ("BAD-CASE", "FAIL unparsable case")
 
 /-! ### c12.inter: two Solutions, calls interleaved -/
@@ -139,7 +142,7 @@ def interHandler : Handler := fun payload impl =>
   match qs.splitOn ";" with
   | [a, b] =>
     match parseQuery a, parseQuery b, parseSteps os with
-    | some qa, some qb, some steps => (interModel qa qb steps, interJudge qa qb steps impl)
+    | some qa, some qb, some steps => (interModel qa qb steps, if skipped impl then "-" else interJudge qa qb steps impl)
     | _, _, _ => ("BAD-CASE", "FAIL unparsable case")
   | _ => ("BAD-CASE", "FAIL unparsable case")
 
